@@ -10,6 +10,10 @@ import json,re,sys
 m=json.load(open('seeded/$d/meta.json')); t=m.get('detected_by','')
 c=re.findall(r'\bC\d\d\b', t.split(':')[0]) or [m['property']]
 print(' '.join(dict.fromkeys(c)))")
+  if /venv/bin/python -c "
+import json,sys
+t=json.load(open('seeded/$d/meta.json')).get('detected_by','')
+sys.exit(0 if t.startswith(('MISSED','SUPERSEDED')) else 1)"; then echo "$d: documented miss / superseded (see meta.json)"; continue; fi
   out=$(tools/try_seed.sh seeded/$d/patch.diff $checks 2>&1)
   n=$(echo "$out" | grep -c "^VIOLATION")
   if echo "$out" | grep -q "patch does not apply"; then echo "$d: PATCH DOES NOT APPLY";
